@@ -98,6 +98,9 @@ class PDU(Type[PDUContent]):
             exception = ErrorResponse.construct(
                 error_status.value, offending_oid or ObjectIdentifier()
             )
+            # Lets the caller tell whether this is the answer to *its*
+            # request before acting on the error
+            exception.request_id = request_id.value  # type: ignore
             raise exception
 
         values, nxt = decode(data, nxt, enforce_type=Sequence)
